@@ -20,6 +20,7 @@ def respond (line : String) : List String :=
     match parseSkel (" ".intercalate rest) with
     | .error m => [s!"bad-request {m}"]
     | .ok r => skelFacts r
+  | "conc" :: rest => concFacts rest
   | _ => ["bad-request unknown"]
 
 partial def loop (h : IO.FS.Stream) (out : IO.FS.Stream) : IO Unit := do
